@@ -142,6 +142,29 @@ let parse_event toks =
   | ["rollback"] -> ERollback
   | _ -> failwith ("bad event " ^ String.concat " " toks)
 
+let hid_s = function HSand n -> Printf.sprintf "s %d" (int_of_nat n) | HPack id -> Printf.sprintf "p %d" (int_of_z id)
+let row_s r = Printf.sprintf "%d,%d,%d,%d,%d,%d" (int_of_n r.rkey) (int_of_z r.rpack) (int_of_nat r.roff) (int_of_nat r.rlen)
+                (if r.rcomp then 1 else 0) (int_of_nat r.rsize)
+let event_s = function
+  | EOpenSand n -> Printf.sprintf "opensand %d" (int_of_nat n)
+  | EOpenPack id -> Printf.sprintf "openpack %d" (int_of_z id)
+  | EWrite (h, b) -> Printf.sprintf "write %s %s" (hid_s h) (bytes_to_hex b)
+  | EFlush h -> "flush " ^ hid_s h
+  | EFsync h -> "fsync " ^ hid_s h
+  | EClose h -> "close " ^ hid_s h
+  | ETruncate (id, pos) -> Printf.sprintf "truncate %d %d" (int_of_z id) (int_of_nat pos)
+  | EPublish (n, k) -> Printf.sprintf "publish %d %d" (int_of_nat n) (int_of_n k)
+  | EUnlinkSand n -> Printf.sprintf "unlinksand %d" (int_of_nat n)
+  | EUnlinkLoose k -> Printf.sprintf "unlinkloose %d" (int_of_n k)
+  | EUnlinkPack id -> Printf.sprintf "unlinkpack %d" (int_of_z id)
+  | ELinkPack (a, b) -> Printf.sprintf "link %d %d" (int_of_z a) (int_of_z b)
+  | ESql (SInsert (ig, rs)) -> String.trim (Printf.sprintf "insert %d %s" (if ig then 1 else 0) (String.concat ";" (List.map row_s rs)))
+  | ESql (SDelete ks) -> String.trim ("delete " ^ String.concat "," (List.map (fun k -> string_of_int (int_of_n k)) ks))
+  | ESql (SUpdateRows rs) -> "updaterows " ^ String.concat ";" (List.map row_s rs)
+  | ESql (SRepoint (a, b)) -> Printf.sprintf "repoint %d %d" (int_of_z a) (int_of_z b)
+  | ECommit -> "commit"
+  | ERollback -> "rollback"
+
 let rec firstn_l n l = if n <= 0 then [] else match l with [] -> [] | x :: t -> x :: firstn_l (n - 1) t
 
 let dump_world (w : world) =
@@ -156,7 +179,7 @@ let dump_world (w : world) =
 let run_trace_block () =
   let htab : (n list, n) Hashtbl.t = Hashtbl.create 64 in
   let ztab : (n list, n list) Hashtbl.t = Hashtbl.create 64 in
-  let loose = ref [] and packs = ref [] and rows = ref [] and truth = ref [] and targets = ref [] and evs = ref [] in
+  let loose = ref [] and packs = ref [] and rows = ref [] and truth = ref [] and targets = ref [] and evs = ref [] and progs = ref [] in
   let fin = ref false in
   while not !fin do
     let line = String.trim (input_line stdin) in
@@ -170,6 +193,7 @@ let run_trace_block () =
     | ["T"; k; hx] -> truth := (n_of_int (int_of_string k), hex_to_bytes hx) :: !truth
     | ["G"; k] -> targets := n_of_int (int_of_string k) :: !targets
     | "E" :: toks -> evs := parse_event toks :: !evs
+    | "X" :: toks -> progs := toks :: !progs
     | [] -> ()
     | _ -> failwith ("bad trace line " ^ line)
   done;
@@ -193,9 +217,30 @@ let run_trace_block () =
       let n = List.length tr in
       let rec find i = if i > n then n else if f (firstn_l i tr) then find (i + 1) else i in
       Printf.sprintf "fail@%d" (find 0) end in
+  (* model programs, each run from the world the previous one left *)
+  let prog_events =
+    let st = ref s0 and out = ref [] in
+    List.iter (fun toks ->
+      let (w, _) = !st in
+      let evs = match toks with
+        | ["add"; n; chunks] -> p_add_loose h w (nat_of_int (int_of_string n)) (List.map hex_to_bytes (split_on ';' chunks))
+        | ["add"; n] -> p_add_loose h w (nat_of_int (int_of_string n)) []
+        | ["pack"; id; fs; clean; objs] ->
+            let po s = (match String.split_on_char ',' s with
+              | [k; blob; c; sz] -> { okey = n_of_int (int_of_string k); oblob = hex_to_bytes blob; ocomp = (c = "1"); osize = nat_of_int (int_of_string sz) }
+              | _ -> failwith "bad pobj") in
+            p_pack_one w (z_of_int (int_of_string id)) (List.map po (split_on ';' objs)) (fs = "1") (clean = "1")
+        | ["clean"; v; order] -> p_clean w (v = "1") (List.map (fun k -> n_of_int (int_of_string k)) (split_on ',' order))
+        | ["clean"; v] -> p_clean w (v = "1") []
+        | ["delete"; ks] -> p_delete w (List.map (fun k -> n_of_int (int_of_string k)) (split_on ',' ks))
+        | _ -> failwith ("bad program " ^ String.concat " " toks) in
+      out := !out @ evs;
+      st := run_events !st evs) (List.rev !progs);
+    !out in
   let mono = locate (fun t -> all_ok_b h inflate s0 t) in
   let c13 = locate (fun t -> c13_all_b h inflate s0 t) in
-  Printf.printf "crash=%s pl=%s mono=%s c13=%s final=%s\n" (verdict false) (verdict true) mono c13 (dump_world wf)
+  Printf.printf "crash=%s pl=%s mono=%s c13=%s prog=%s final=%s\n" (verdict false) (verdict true) mono c13
+    (String.concat "/" (List.map event_s prog_events)) (dump_world wf)
 
 let () =
   let extra = ref [("por", cmd_por); ("bio", cmd_bio true); ("fio", cmd_bio false); ("zsd", cmd_zsd)] in
